@@ -521,7 +521,14 @@ func (e *Exec) register(i int, cancelAtOnce bool) {
 }
 
 func (e *Exec) cancel(i int, l *Listener) {
-	if !l.Registered || l.Cancelled {
+	if !l.Registered {
+		return
+	}
+	if l.Cancelled {
+		// the cancel function is a context.CancelFunc: calling it again does nothing, and returns
+		c := l.cancelFn
+		e.start("cancel", -1, i, func(o *Op) { c() })
+		e.Settle()
 		return
 	}
 	exactBefore := !(e.anyParked() || e.anyHeld())
